@@ -17,6 +17,8 @@ int verif_old_bit;
 unsigned long long verif_g0, verif_g1, verif_g2, verif_g3, verif_g4, verif_g5, verif_g6, verif_g7;
 const unsigned char *verif_p0, *verif_p1, *verif_p2, *verif_p3;
 
+unsigned long long xat_bk;	/* ghost byte index (copies of names and values) */
+
 #if defined(XAT_UF_STRLEN) && !defined(VERIF_NATIVE)
 /*
  * libc strlen under the verifier: an uninterpreted pure function of the pointer, at most 255 (names of
